@@ -115,3 +115,46 @@ ADD = {
 for _k, (_t, _x) in ADD.items():
     _tech, _text, _note = CLAIMED[_k]
     CLAIMED[_k] = (_tech + _t, _text + _x, _note)
+
+# ---- round 4
+ADD4 = {
+ "C01": ("; registry/link-pass rule for the *Fragment a spread points at; derivation-consistency of recorded and compared reflect.Type values (as C08.METADOM)",
+         " Also decides that a spread read before its fragment's definition ends up pointing at the definition (registered placeholder, or a re-link pass over operations and fragment bodies), and that Go types are recorded and compared under one derivation."),
+ "C03": ("; visited-set rule on reference-following edges inside loops (exponential fragment expansion); nil-fact rule on every use of a nil-tolerant field, followed into callees; structural recognition of raw read helpers",
+         " Also decides that fragments spreading each other are expanded once per object (a genuine exponential blow-up was found and repaired) and that a fragment's absent type condition is never dereferenced."),
+ "C04": ("; NaN-aware range guards (the false edge of an ordered float comparison is no bound); re-statement of C10.FIELD",
+         " Also decides that NaN cannot pass a reject-form range test into a Float argument, and that arguments are coerced against the definition of the container of this evaluation."),
+ "C05": ("; NaN-aware range guards",
+         " Also decides that a float NaN cannot pass a reject-form range test into an Int / Int64 leaf."),
+ "C06": ("; emptiness of the error accumulator at every append of an error constructed on the spot (field resolver, reflection resolver, dispatcher)",
+         " Also decides that a failure already recorded for a field evaluation does not get a second, constructed entry."),
+ "C07": ("; who-may-call rule tying every raw Read of the parser's reader to the newline accounting; byte provenance of assembled buffers handed to Write in the value writer",
+         " Also decides that no byte of the document is consumed round the line counter (positions lie on the token's line) and that buffers assembled before writing hold only layout, formatter output or SDL names (Go string quoting is not JSON escaping)."),
+ "C08": ("; derivation labels (raw / base / elem / ptr) of every reflect.Type stored into or compared with Object.meta, interprocedural over in-package call sites; control dependence of the comparison inside the type-table scan",
+         " Also decides that the Go-type binding is recorded and tested under one derivation (value vs. pointer graphs), and that the lookup from a Go type examines every *Object of the table."),
+ "C09": ("; effect summary of resolution restricted to selection sets / directive lists / fragments (struct copies alias, with kill); effect summary of SetContextRecursive",
+         " Also decides that resolution never rewrites selection lists in place (a selection excluded once stays available for the next variable values) and that setting the context writes only Field.Context."),
+ "C10": ("; control dependence of the argument lookup and of the coercion inside validateDirUse's loop; effect summary of the argument builder vs. schema definitions",
+         " Also decides that every argument of a directive use is checked for existence whatever its value, and that forming arguments writes nothing into field or argument definitions."),
+ "C11": ("; struct-copy aliasing with kill; partial provenance no longer memoised",
+         " In-place filtering through a copied struct's slice header is now seen."),
+ "C13": ("; control dependence of the checks inside Root.validate's loops (unfiltered); operand-origin rule for two-type calls of the sub-type predicate family; control dependence of the coercion in validateDirUse",
+         " Also decides that validation is not restricted to a subset of the tables, that the sub-type relation never compares transformed (wrapper-stripped) types, and that a null directive argument is coerced like any other literal."),
+ "C14": ("; dominance of each Extend by a successful reference replacement of the same extension",
+         " Also decides that an undefined reference inside an extension is found before the shared target is modified."),
+ "C15": ("; reader/printer order agreement (reachability between consumption points vs. reachability between emission points, 35 pairs); control dependence of the emission in the whole-schema printer",
+         " Also decides that no pair of parts is printed in the opposite order to the one the reader consumes, and that the whole-schema printer leaves out nothing but built-ins."),
+ "C16": ("; re-statement of C13.WALK (unfiltered whole-table validation after every load)",
+         " Also decides that a later load cannot leave an earlier definition unvalidated."),
+ "C17": ("; totality of helpers applied to node members inside Resolve methods (nil only for nil); re-statement of C16.EXTREFS",
+         " Also decides that a declared default is never described as absent because of its value, and that root operation types added by `extend schema` are resolved types."),
+ "C18": ("; nest/unnest typestate on every path to a successful return (spilled result cells resolved); byte provenance of assembled buffers",
+         " Also decides that the nesting counter measures depth, not the number of containers read."),
+ "C19": ("; the registration-origin rule over every call site of the registration function; set-guarded registration accepted",
+         " Also covers registrations moved into helpers."),
+ "C20": ("; returns not dominated by the registry lock vs. state of the Root (exact-mirror tolerance: constant steps beside registry writes); registration-once rule",
+         " Also decides that a publish is never short-circuited on a shadow of the registry that can drift, and that a subscriber enters the registry once."),
+}
+for _k, (_t, _x) in ADD4.items():
+    _tech, _text, _note = CLAIMED[_k]
+    CLAIMED[_k] = (_tech + _t, _text + _x, _note)
